@@ -364,12 +364,12 @@ func c01Sizes(r *run.Run) {
 	sweeps := []struct {
 		name string
 		n    int
-	}{{"copyright length", 601}, {"trademark length with a 200-character copyright", 200}, {"family name length", 120}, {"extra glyphs", 300}, {"stem hint pairs on a glyph with its own width (CFF)", 100}, {"contours (0..2) and instruction bytes (0..6) of a simple glyph (glyf)", 21}, {"glyphs, all of them blank", 7}, {"segments of a CFF contour whose steps are thirds and tenths (CFF)", 161}}
+	}{{"copyright length", 601}, {"trademark length with a 200-character copyright", 200}, {"family name length", 120}, {"extra glyphs", 300}, {"stem hint pairs on a glyph with its own width (CFF)", 100}, {"contours (0..2) and instruction bytes (0..6) of a simple glyph (glyf)", 21}, {"glyphs, all of them blank", 7}, {"segments of a CFF contour whose steps are thirds and tenths (CFF)", 161}, {"bytes of glyph data around 64 KiB and 128 KiB, in steps of two (glyf)", 16}}
 	if !r.Quick() {
 		sweeps[0].n, sweeps[3].n = 2001, 1200
 	}
 	r.Explore(explore.Config{Name: "C01.sizes", Deadline: r.PartDeadline(0.3)},
-		fmt.Sprintf("size sweeps on a 6-glyph base font of each outline kind, every value in the range: copyright length 0..%d, trademark length 0..%d next to a 200-character copyright, family name length 1..%d, 0..%d extra glyphs with generated names/CIDs, 0..99 stem hint pairs (two thirds horizontal) on a glyph with its own width, a simple TrueType glyph with 0..2 contours x 0..6 instruction bytes, fonts of 1..6 glyphs that are all blank, a CFF contour of 1..160 lines or curves whose coordinates are thirds and tenths (one rounding per coordinate, not adding up); same round-trip and fixed-point oracle as C01.generated", sweeps[0].n-1, sweeps[1].n-1, sweeps[2].n, sweeps[3].n-1),
+		fmt.Sprintf("size sweeps on a 6-glyph base font of each outline kind, every value in the range: copyright length 0..%d, trademark length 0..%d next to a 200-character copyright, family name length 1..%d, 0..%d extra glyphs with generated names/CIDs, 0..99 stem hint pairs (two thirds horizontal) on a glyph with its own width, a simple TrueType glyph with 0..2 contours x 0..6 instruction bytes, fonts of 1..6 glyphs that are all blank, a CFF contour of 1..160 lines or curves whose coordinates are thirds and tenths (one rounding per coordinate, not adding up), TrueType glyph data of 0xFFFA..0x10006 and 0x1FFF8..0x20008 bytes; same round-trip and fixed-point oracle as C01.generated", sweeps[0].n-1, sweeps[1].n-1, sweeps[2].n, sweeps[3].n-1),
 		func(c *explore.Ctx) {
 			kind := c.Choose(3, "outline kind")
 			sw := c.Choose(len(sweeps), "sweep")
@@ -450,6 +450,35 @@ func c01Sizes(r *run.Run) {
 				contours := [][]gen.Pt{{{0, 0, true}, {300, 0, true}, {150, 400, true}}, {{10, 10, true}, {20, 10, true}, {15, 30, false}}}[:v%3]
 				o.Glyphs[len(o.Glyphs)-1] = gen.SimpleGlyf(contours, []byte{0xB0, 0x01, 0xB0, 0x02, 0x21, 0x21}[:v/3])
 				f.Outlines = &o
+			}
+			if sw == 8 {
+				// the glyph data ends exactly at, just below or just above what the short loca format can
+				// address (0x1FFFE bytes) and where the library changes to the long format (64 KiB)
+				ol, ok := f.Outlines.(*glyf.Outlines)
+				if !ok {
+					c.Skip("glyf outlines only")
+				}
+				target := []int{0xFFFA, 0xFFFC, 0xFFFE, 0x10000, 0x10002, 0x10004, 0x10006, 0x1FFF8, 0x1FFFA, 0x1FFFC, 0x1FFFE, 0x20000, 0x20002, 0x20004, 0x20006, 0x20008}[v]
+				o := *ol
+				o.Glyphs = append(glyf.Glyphs{}, ol.Glyphs...)
+				base := len(o.Glyphs.Encode().GlyfData)
+				big := func(fill int) *glyf.Glyph {
+					body := append([]byte{0, 0, byte(fill >> 8), byte(fill)}, make([]byte, fill)...)
+					return &glyf.Glyph{Rect16: funit.Rect16{URx: 10, URy: 10}, Data: glyf.SimpleGlyph{NumContours: 1, Encoded: append(body, 0x31)}}
+				}
+				// two filler glyphs of 16 + fill bytes each (fill odd: even sizes)
+				need := target - base - 32
+				fa := need/4*2 + 1
+				fb := need - fa + 2
+				o.Glyphs = append(o.Glyphs, big(fa-1), big(fb-1))
+				o.Widths = append(append([]funit.Int16{}, ol.Widths...), 444, 445)
+				if o.Names != nil {
+					o.Names = append(append([]string{}, ol.Names...), "filler.a", "filler.b")
+				}
+				f.Outlines = &o
+				if got := len(o.Glyphs.Encode().GlyfData); got != target {
+					c.Tag(fmt.Sprintf("glyph data has %#x bytes instead of %#x", got, target))
+				}
 			}
 			if sw == 7 {
 				// a long contour whose coordinates are no 16.16 numbers: every coordinate is rounded once,
